@@ -424,12 +424,36 @@ def r11_9(ctx) -> None:
             lab = "false"
         if lab is not None and not can_reach_exit(cfg, succ_by_label(cfg, t, lab)):
             ok = True
+    # (iii) any / all over a generator: `if any(op not in OPS for op in KOPS): raise`, `if not all(op in OPS for op in KOPS): raise`
+    for t in cfg.nodes:
+        if t.kind != "test":
+            continue
+        e = t.ast
+        neg = False
+        if isinstance(e, ast.UnaryOp) and isinstance(e.op, ast.Not):
+            e, neg = e.operand, True
+        if not (isinstance(e, ast.Call) and isinstance(e.func, ast.Name) and e.func.id in ("any", "all") and len(e.args) == 1
+                and isinstance(e.args[0], (ast.GeneratorExp, ast.ListComp)) and len(e.args[0].generators) == 1 and not e.args[0].generators[0].ifs):
+            continue
+        g = e.args[0].generators[0]
+        c = e.args[0].elt
+        if not (is_kops(g.iter) and isinstance(c, ast.Compare) and len(c.ops) == 1 and norm(c.left) == norm(g.target) and is_ops(c.comparators[0])):
+            continue
+        # the branch on which some listed operation is outside the declared use
+        if e.func.id == "any" and isinstance(c.ops[0], ast.NotIn):
+            lab = "false" if neg else "true"
+        elif e.func.id == "all" and isinstance(c.ops[0], ast.In):
+            lab = "true" if neg else "false"
+        else:
+            continue
+        if not can_reach_exit(cfg, succ_by_label(cfg, t, lab)):
+            ok = True
     if ok:
         # reached whenever both members are present
         both = [t for t in cfg.nodes if t.kind == "test" and isinstance(t.ast, ast.Compare) and isinstance(t.ast.ops[0], ast.In) and const_value(t.ast.left) in ("use", "key_ops")
                 and norm(t.ast.comparators[0]) == dp]
         rel = [t for t in cfg.nodes if (t.kind == "loop" and isinstance(t.ast, ast.For) and is_kops(t.ast.iter)) or
-               (t.kind == "test" and any(isinstance(x, (ast.Subscript,)) and norm(x) == kops for x in ast.walk(t.ast)))]
+               (t.kind == "test" and any(isinstance(x, (ast.Subscript, ast.Name)) and (norm(x) == kops or is_kops(x)) for x in ast.walk(t.ast)))]
         if both and rel:
             ok = cfg.must_pass(cfg.entry, cfg.exit, rel, edge_filter=lambda a, b, lab, _b=both: not (a in _b and lab == "false"))
             if not ok:
